@@ -6,6 +6,17 @@ SRC = os.path.join(VERIF, "native", "src")
 _built = {}
 
 
+def unicode_tables():
+    """the three BY_NAME tables as written in the generated source files of the working tree: {module: [(display name, IDENT)]}"""
+    import re
+    out = {}
+    for mod in ("binary", "category", "script"):
+        src = open(os.path.join(REPO, f"pest/src/unicode/{mod}.rs")).read()
+        m = re.search(r"pub const BY_NAME:[^=]*=\s*&\[(.*?)\];", src, re.S)
+        out[mod] = re.findall(r'\("([^"]+)",\s*([A-Z0-9_]+)\)', m.group(1)) if m else []
+    return out
+
+
 def build(extras=False, release=False):
     """-> path of the binary, rebuilt from /repo's working tree (cargo decides what is stale)."""
     key = (extras, release)
@@ -18,6 +29,14 @@ def build(extras=False, release=False):
     p = os.path.join(d, "Cargo.toml")
     if not os.path.exists(p) or open(p).read() != t: open(p, "w").write(t)
     shutil.copy(os.path.join(REPO, "Cargo.lock"), os.path.join(d, "Cargo.lock"))
+    # identifier -> property *function* (by_name only reaches the tables): generated from the identifiers of the BY_NAME tables
+    import re
+    modsrc = re.sub(r"//[^\n]*", "", open(os.path.join(REPO, "pest/src/unicode/mod.rs")).read())
+    mentioned = set(re.findall(r"\b[A-Z][A-Z0-9_]+\b", modsrc))          # a table entry without a function is not mentioned there
+    idents = sorted({i for t in unicode_tables().values() for _, i in t if i in mentioned})
+    g = "pub fn unicode_fn(name: &str) -> Option<fn(char) -> bool> {\n    match name {\n" + "".join(f'        "{i}" => Some(pest::unicode::{i}),\n' for i in idents) + "        _ => None,\n    }\n}\n"
+    gp = os.path.join(d, "gen_unicode.rs")
+    if not os.path.exists(gp) or open(gp).read() != g: open(gp, "w").write(g)
     tdir = os.path.join(WORK, name + "-target")
     cmd = ["cargo", "build", "--offline"] + (["--release"] if release else []) + (["--features", "grammar-extras"] if extras else [])
     rc, out = sh(cmd, cwd=d, env={"CARGO_TARGET_DIR": tdir, "RUSTFLAGS": f"--cfg {GUARD}"}, timeout=1800)
